@@ -199,8 +199,8 @@ notation!(
 		const magic: u32 = 0xCAFEBABEu32,
 		mut minor_version: u16,
 		mut major_version: u16,
-		const constant_pool_count: u16 = this.constant_pool.len() + 1,
-		mut constant_pool: Vec<CpInfo> {constant_pool_count - 1}; Some(&constant_pool),
+		const constant_pool_count: u16 = pool_slots(&this.constant_pool) + 1,
+		mut constant_pool: Vec<CpInfo> {constant_pool_count - 1; slots}; Some(&constant_pool),
 		mut access_flags: u16,
 		mut this_class: u16,
 		mut super_class: u16,
@@ -249,11 +249,13 @@ notation!(
 			= 4 => 4,
 			mut bytes: u32,
 		},
+		/// Takes up two constant pool indices: the entry after one at index `n` is at index `n + 2`.
 		Long {
 			= 5 => 5,
 			mut high_bytes: u32,
 			mut low_bytes: u32,
 		},
+		/// Takes up two constant pool indices: the entry after one at index `n` is at index `n + 2`.
 		Double {
 			= 6 => 6,
 			mut high_bytes: u32,
@@ -323,11 +325,39 @@ notation!(
 	}
 );
 
+impl CpInfo {
+	/// The number of constant pool indices the entry takes up.
+	fn slots(&self) -> usize {
+		match self {
+			CpInfo::Long { .. } | CpInfo::Double { .. } => 2,
+			_ => 1,
+		}
+	}
+}
+
+/// The number of constant pool indices the entries take up.
+fn pool_slots(pool: &[CpInfo]) -> usize {
+	pool.iter().map(CpInfo::slots).sum()
+}
+
+/// The entry at a constant pool index, if one starts there: the indices start at 1, and an entry takes up
+/// [`CpInfo::slots`] of them.
+fn pool_get(pool: &[CpInfo], index: u16) -> Option<&CpInfo> {
+	let mut entry_index = 1;
+	for entry in pool {
+		if entry_index == index as usize {
+			return Some(entry);
+		}
+		entry_index += entry.slots();
+	}
+	None
+}
+
 fn pool_has_utf8(pool: Option<&Vec<CpInfo>>, index: u16, value: &[u8]) -> Result<bool, std::io::Error> {
 	let Some(pool) = pool else {
 		return Err(std::io::Error::other("expected to have constant pool at this point of reading"));
 	};
-	let Some(entry) = pool.get((index - 1) as usize) else {
+	let Some(entry) = pool_get(pool, index) else {
 		return Err(std::io::Error::other(format!("no constant pool entry at position {}", index)));
 	};
 	let CpInfo::Utf8 { bytes } = entry else {
